@@ -62,6 +62,10 @@ func C40(e *simkern.Env) {
 	tp := e.Tape
 	nTasks := 2 + tp.Draw(4)
 	hookFailures := tp.Draw(3)
+	hookPanics := 0
+	if hookFailures > 0 && tp.Bool(1, 3) {
+		hookPanics = 1 // the first failing invocation fails by panicking
+	}
 	perTask := 2 + tp.Draw(3)
 	if e.Tier == "thorough" {
 		perTask = 2 + tp.Draw(5)
@@ -109,7 +113,7 @@ func C40(e *simkern.Env) {
 			Prefix: prefix, Compression: level, Sticky: true, StickyTTL: 30 * time.Second,
 			EchoHeaders:     map[string]string{"fly-force-instance-id": "i-1"},
 			ExternalStorage: true, ExternalThreshold: 600, AccessLog: true, DispatchHook: true,
-			HookFailures: hookFailures, WithAuth: true,
+			HookFailures: hookFailures, HookPanics: hookPanics, WithAuth: true,
 		})
 		if err != nil {
 			e.Harness("world L: %v", err)
@@ -144,6 +148,15 @@ func C40(e *simkern.Env) {
 		judge := func(x *lazyw.Exchange) {
 			desc := fmt.Sprintf("request #%d %s %s %s by %s: status %d, own hook invocations %d, hook successes at start/end %d/%d, handler runs %d",
 				x.Seq, x.Kind, reqMethod(x.Req), x.Req.Path, x.Task, x.Resp.Status, len(x.Invs), x.SuccAtStart, x.SuccAtEnd, x.HandlerRuns)
+			if x.Resp.Panicked != nil && x.SawHookPanic() {
+				// its own serve-start hook invocation panicked: net/http recovers
+				// that and drops the connection; nothing of the request may have run
+				sim.Probe("request-saw-hook-panic")
+				if x.HandlerRuns > 0 || len(x.Dispatches) > 0 {
+					e.Violate("hook-failure-not-refused", "serve-start", "%s: its serve-start hook invocation panicked, yet the request was dispatched", desc)
+				}
+				return
+			}
 			if x.Resp.Panicked != nil {
 				e.Violate("panic-escaped-servehttp", x.Kind, "%s: panic %v\n%s", desc, x.Resp.Panicked, trimStack(x.Resp.Stack))
 				return
@@ -314,8 +327,33 @@ func C40(e *simkern.Env) {
 						sim.Probe("first-request-" + kind)
 					}
 					sim.Logf("%s issues %s %s", name, kind, rq.Path)
+					hungUp := false
+					if i > 0 && tp.Bool(1, 8) {
+						// the peer goes away while the (possibly compressed) body is
+						// being written; that request's answer is not judged, but what
+						// it leaves behind must not damage anybody else's
+						rq.HangUpAfter = 1 + tp.Draw(200)
+						if tp.Bool(1, 2) {
+							// inside the first few bytes: already the codec's stream
+							// header does not get through
+							rq.HangUpAfter = 1 + tp.Draw(9)
+						}
+						hungUp = true
+						sim.Fault("peer-hangup-mid-response")
+					}
+					if tp.Bool(1, 3) {
+						// a peer that drains its response slowly: other requests
+						// are served while this body is half written
+						rq.SlowPeer = true
+						sim.Probe("slow-peer")
+					}
 					x := w.Do(kind, rq, n)
 					sim.Logf("%s got %d for %s", name, x.Resp.Status, kind)
+					if hungUp && x.Resp.HungUp {
+						reqDone[name]++
+						sim.Y("client.between")
+						continue
+					}
 					judge(x)
 					reqDone[name]++
 					sim.Y("client.between")
@@ -417,6 +455,19 @@ func C40(e *simkern.Env) {
 		}
 		sim.WeightFn = nil
 		sim.Spawn("shutdown", w.Shutdown)
+		if reason == simkern.StopDeadlock && !e.Violated() {
+			// every request that is still running waits, with nothing left that
+			// could move, inside the server: requests of a live server hang for good
+			inServer := false
+			for _, t := range sim.Tasks() {
+				if parked, site := t.Parked(); t.Root && !t.Done() && parked && (strings.Contains(site, "server.go") || strings.Contains(site, "http")) {
+					inServer = true
+				}
+			}
+			if inServer {
+				e.Violate("requests-hang-forever", "serve-start", "no task can move and requests are parked inside the server for good: %s", sim.Stuck())
+			}
+		}
 		e.Conclude(sim, reason, true)
 		e.Res.Nontrivial = e.Res.Interleavings > 0
 		sample = append(sample, fmt.Sprintf("hook invocations=%d successes=%d max-overlap=%d reaper-tasks=%d uploads=%d access-log-lines=%d",
@@ -513,7 +564,7 @@ func init() {
 		Stub:  []string{"HTTP transport (direct ServeHTTP call, httptest recorder)", "serve-start hook, dispatch-hook multiplexer, authenticator (harness callbacks that yield)", "object store (ExternalStorage that yields)", "access-log writer", "scripted handlers"},
 		Quick: 800, Thorough: 300000,
 		Warm:       warmLazy,
-		FaultKinds: []string{"serve-start-hook-failure", "clock-advance"},
+		FaultKinds: []string{"serve-start-hook-failure", "clock-advance", "serve-start-hook-panic", "peer-hangup-mid-response"},
 		Assumptions: []string{
 			"the 'no data races' clause of C40 is NOT decided: under a cooperative scheduler every access is ordered by the hand-off, so a race detector sees nothing (DESIGN §10); only the consequence clauses are checked (hook committed once, failure refused with 500 and re-run, no dispatch before a hook success, one transport kind, one protocol hash, identical page/health bodies, no escaped panic, one reaper goroutine, response bodies decode and belong to their own call)",
 			"'computed once' for pages, health body and protocol hash is judged through observable consequences only (identical answers to identical GETs, one hash value through DispatchInfo, Server.ProtocolHash(), __describe__ and access-log records, no duplicate-route panic), not by counting executions",
